@@ -127,6 +127,18 @@ func damages() []damage {
 		{name: "datasize-negative", block: func() []byte { return hdrOnly("OSMData", 0xFFFFFFFFFFFFFFFF) }},
 		{name: "zlib-rawsize-too-small", block: func() []byte { return pbfwire.RawFileBlock("OSMData", zblob(good, len(good)-1, nil), nil) }},
 		{name: "zlib-rawsize-too-large", block: func() []byte { return pbfwire.RawFileBlock("OSMData", zblob(good, len(good)+5, nil), nil) }},
+		{name: "zlib-rawsize-smaller-ending-on-a-group-boundary", note: "raw_size names a prefix of the inflated data that still parses", block: func() []byte {
+			one := primBlock(st, denseGroup(denseSpec{ids: []int64{1000, 1}, lats: []int64{1, 1}, lons: []int64{2, 2}}))
+			two := append(append([]byte(nil), one...), func() []byte {
+				w := &W{}
+				w.Bytes(2, denseGroup(denseSpec{ids: []int64{1002}, lats: []int64{1}, lons: []int64{2}}))
+				return w.B
+			}()...)
+			return pbfwire.RawFileBlock("OSMData", zblob(two, len(one), nil), nil)
+		}},
+		{name: "zlib-empty-stream-rawsize-positive", block: func() []byte {
+			return pbfwire.RawFileBlock("OSMData", zblob(nil, len(good), nil), nil)
+		}},
 		{name: "zlib-bad-header", block: func() []byte {
 			return pbfwire.RawFileBlock("OSMData", zblob(good, len(good), func(z []byte) []byte { z[0] = 0x79; return z }), nil)
 		}},
